@@ -3,13 +3,14 @@
 (* Validation of SplitIntoBins runs recorded from the real code on edges   *)
 (* and flows beyond the exhaustive bounds (real-valued edges and           *)
 (* coordinates are replaced by their ranks per dimension):                 *)
-(*   [edges, kind, flow, hists (nested bins of every histogram yielded),   *)
+(*   [edges, form (how they were written), kind, flow, hists (nested bins of every histogram yielded), *)
 (*    iter (edges of the cells IterateBins yields, sorted), hctx, vctx]    *)
 (***************************************************************************)
 EXTENDS SplitIntoBinsSem, IOUtils
 Trace == JsonDeserialize(IOEnv.TRACE_FILE)
 VARIABLE i
 Ok(r) == LET hs == SIBSem(r.kind, r.edges, r.flow) IN
+         /\ r.form \in Forms(Len(r.edges)) /\ AxesWritten(EdgesWritten(r.edges, r.form)) = r.edges
          /\ r.hists = [k \in 1..Len(hs) |-> Nest(hs[k], r.edges)]
          /\ (Len(hs) > 0) => r.hctx = HistCtxSem(r.edges, r.flow)      \* context of the histograms (without variable)
          /\ r.vctx = FlowCtxSem(r.kind, r.edges, r.flow)               \* contexts of the flow values afterwards
